@@ -43,4 +43,115 @@ def tokensCleanB (cs : List Chunk) : Bool :=
     | some c => !isLT c
     | none => false)
 
+/-- the token is spelled like a string literal or a comment -/
+def isLiteralOrComment (t : String) : Bool :=
+  match t.toList with
+  | '\'' :: _ => true
+  | '"' :: _ => true
+  | '/' :: '/' :: _ => true
+  | '/' :: '*' :: _ => true
+  | _ => false
+
+def noLT (t : String) : Bool := t.toList.all (fun c => !isLT c)
+
+/-- a printed string may contain a line terminator only if it is a string literal or a comment -/
+def lineSafe (t : String) : Bool := noLT t || isLiteralOrComment t
+
+/-! ### predicates over trees: every printed string satisfies `p`, every node kind `k` -/
+
+/-- attributes that take part in printing: everything except the `@…` metadata, but `@comments` -/
+def printedAttr (a : String) : Bool := a == "@comments" || !Val.isMeta a
+
+mutual
+  def valAll (p k : String → Bool) : Val → Bool
+    | .str s => p s
+    | .list xs => listAll p k xs
+    | .node kind as => k kind && attrsAll p k as
+    | _ => true
+  def listAll (p k : String → Bool) : List Val → Bool
+    | [] => true
+    | v :: vs => valAll p k v && listAll p k vs
+  def attrsAll (p k : String → Bool) : List (String × Val) → Bool
+    | [] => true
+    | (a, v) :: rest => (!printedAttr a || valAll p k v) && attrsAll p k rest
+end
+
+def anyStr : String → Bool := fun _ => true
+
+
+/-- the node classes whose definitions open an indentation level without a brace -/
+def caseKinds : List String := ["Case", "Default"]
+
+
+def notCaseKind (kind : String) : Bool := !caseKinds.contains kind
+
+/-- a printed string that is not itself a brace -/
+def braceFree (t : String) : Bool := t != "{" && t != "}"
+
+
+/-! ### counting on chunk streams -/
+
+/-- change of the Indentator level by one call of a layout handler -/
+def hDelta : HandlerId → Int
+  | .indIndent => 1
+  | .indDedent => -1
+  | _ => 0
+
+def chunkDelta : Chunk → Int
+  | .layout _ h _ => hDelta h
+  | .frag _ => 0
+
+def netChunks : List Chunk → Int
+  | [] => 0
+  | c :: cs => chunkDelta c + netChunks cs
+
+
+/-- structural symbol of a chunk: brace openers (`OpenBlock` chunks, `{` fragments), closers
+(`CloseBlock`, `}`), `Indent`, `Dedent`, newline markers, everything else -/
+inductive SSym where
+  | opener | closer | indent | dedent | nl | other
+  deriving DecidableEq, Repr
+
+def symOfMarker : Marker → SSym
+  | .OpenBlock => .opener
+  | .CloseBlock => .closer
+  | .Indent => .indent
+  | .Dedent => .dedent
+  | .Newline => .nl
+  | .OptionalNewline => .nl
+  | _ => .other
+
+def symOfText (t : String) : SSym :=
+  if t == "{" then .opener else if t == "}" then .closer else .other
+
+def symOfChunk : Chunk → SSym
+  | .layout m _ _ => symOfMarker m
+  | .frag f => symOfText f.text
+
+def syms (cs : List Chunk) : List SSym := cs.map symOfChunk
+
+def dLvl : SSym → Int
+  | .indent => 1
+  | .dedent => -1
+  | _ => 0
+
+def dBr : SSym → Int
+  | .opener => 1
+  | .closer => -1
+  | _ => 0
+
+def sumL (f : SSym → Int) : List SSym → Int
+  | [] => 0
+  | s :: ss => f s + sumL f ss
+
+/-- number of brace tokens opened and not closed in a chunk list -/
+def braceDepth (cs : List Chunk) : Int := sumL dBr (syms cs)
+
+/-- the next token that is not a newline marker is a closing brace -/
+def closerNext : List SSym → Bool
+  | .nl :: ss => closerNext ss
+  | .closer :: _ => true
+  | _ => false
+
+
 end CalmVerif.Unparse
